@@ -11,6 +11,13 @@ import XvcGit.Lemmas
   `patches/C15-pathspec.patch`; the code before the patches is `gitAutoCommitOld` / `oldSpec`, for
   which the counterexamples at the end are proved.
 
+  Layout: every theorem is stated for an arbitrary `root : Path`, the directory of the Git work tree
+  in which the Xvc root lies (`[]` = the Git root itself, `["proj"]` = `xvc init` was run in
+  `proj/`, any depth).  All paths of a state are relative to the top of the Git work tree; the
+  paths xvc may stage/commit are `isXvcPathAt root` (below `root`: `.xvc/**` and files named
+  `.gitignore` / `.xvcignore`); every other path — in particular EVERY path outside `root`,
+  `.gitignore` files included — is a user path.  `C15_outside_root` spells the consequence out.
+
   Fragment: the theorems about `git.auto_commit` assume `NoMixed` — no path carries a staged and an
   unstaged change at the same time.  Outside it real git itself stops half-way (`git stash push
   --staged` leaves a stray entry, `git stash pop --index` refuses); those states are judged by the
@@ -21,14 +28,16 @@ namespace Git
 /-! ## the statement: what "the user's Git state is left alone" means -/
 
 /-- The relation the property demands between the state `g` an xvc command found and the state
-    `g'` it left (`tb` = `--to-branch`).  User paths are the paths that are not `isXvcPath`. -/
-structure UserStateKept (tb : Option String) (g g' : G) : Prop where
+    `g'` it left (`root` = the Xvc root inside the Git work tree, `tb` = `--to-branch`).  User paths
+    are the paths that are not `isXvcPathAt root`: everything outside `root`, and below `root`
+    everything except `.xvc/**` and files named `.gitignore` / `.xvcignore`. -/
+structure UserStateKept (root : Path) (tb : Option String) (g g' : G) : Prop where
   /-- unstaged edits and untracked files stay as they were -/
-  wt : ∀ p, isXvcPath p = false → g'.wt.find? p = g.wt.find? p
+  wt : ∀ p, isXvcPathAt root p = false → g'.wt.find? p = g.wt.find? p
   /-- staged changes (new, modified, deleted) stay staged -/
-  index : ∀ p, isXvcPath p = false → g'.index.find? p = g.index.find? p
+  index : ∀ p, isXvcPathAt root p = false → g'.index.find? p = g.index.find? p
   /-- the commit HEAD points at contains the same user files as before -/
-  headTree : ∀ p, isXvcPath p = false → g'.headTree.find? p = g.headTree.find? p
+  headTree : ∀ p, isXvcPathAt root p = false → g'.headTree.find? p = g.headTree.find? p
   /-- the stash list is unchanged -/
   stash : g'.stash = g.stash
   /-- the current branch is unchanged (detached stays detached) unless `--to-branch` -/
@@ -37,14 +46,14 @@ structure UserStateKept (tb : Option String) (g g' : G) : Prop where
   refs : ∀ r, g.head ≠ .branch r → tb ≠ some r → lookupRef g'.refs r = lookupRef g.refs r
   /-- old commits are immutable and the commits xvc creates contain no user file change -/
   commits : ∃ new, g'.commits = g.commits ++ new ∧
-    ∀ o ∈ new, ∀ p, isXvcPath p = false → o.tree.find? p = g.headTree.find? p
+    ∀ o ∈ new, ∀ p, isXvcPathAt root p = false → o.tree.find? p = g.headTree.find? p
 
-theorem UserStateKept.refl' (tb : Option String) (g : G) : UserStateKept tb g g :=
+theorem UserStateKept.refl' (root : Path) (tb : Option String) (g : G) : UserStateKept root tb g g :=
   ⟨fun _ _ => rfl, fun _ _ => rfl, fun _ _ => rfl, rfl, Or.inl (Head.same_refl _), fun _ _ _ => rfl,
    ⟨[], by simp, by simp⟩⟩
 
-theorem UserStateKept.trans {tb : Option String} {a b c : G}
-    (h1 : UserStateKept tb a b) (h2 : UserStateKept tb b c) : UserStateKept tb a c where
+theorem UserStateKept.trans {root : Path} {tb : Option String} {a b c : G}
+    (h1 : UserStateKept root tb a b) (h2 : UserStateKept root tb b c) : UserStateKept root tb a c where
   wt := fun p hp => by rw [h2.wt p hp, h1.wt p hp]
   index := fun p hp => by rw [h2.index p hp, h1.index p hp]
   headTree := fun p hp => by rw [h2.headTree p hp, h1.headTree p hp]
@@ -73,8 +82,8 @@ theorem UserStateKept.trans {tb : Option String} {a b c : G}
     · exact c1 o h p hp
     · rw [c2 o h p hp, h1.headTree p hp]
 
-theorem UserStateKept.of_call {tb : Option String} {g g' : G} {st : Status}
-    (h : CallFacts isXvcPath tb g g' st) : UserStateKept tb g g' where
+theorem UserStateKept.of_call {root : Path} {tb : Option String} {g g' : G} {st : Status}
+    (h : CallFacts (isXvcPathAt root) tb g g' st) : UserStateKept root tb g g' where
   wt := fun p _ => h.wt p
   index := h.index_user
   headTree := h.head_user
@@ -87,10 +96,10 @@ theorem UserStateKept.of_call {tb : Option String} {g g' : G} {st : Status}
     · exact ⟨[o], e, by intro o' ho' p hp; simp at ho'; subst ho'; exact ho p hp⟩
 
 /-- the xvc-side writes of a command touch only `.xvc/**`, `.gitignore`, `.xvcignore` files -/
-def Confined (ch : Change) : Prop := ∀ e ∈ ch, isXvcPath e.1 = true
+def Confined (root : Path) (ch : Change) : Prop := ∀ e ∈ ch, isXvcPathAt root e.1 = true
 
-theorem find?_apply_user (t : Tree) (ch : Change) (hc : Confined ch) (p : Path)
-    (hp : isXvcPath p = false) : (t.apply ch).find? p = t.find? p :=
+theorem find?_apply_user (root : Path) (t : Tree) (ch : Change) (hc : Confined root ch) (p : Path)
+    (hp : isXvcPathAt root p = false) : (t.apply ch).find? p = t.find? p :=
   Tree.find?_apply t ch p (fun e he heq => by have := hc e he; rw [heq, hp] at this; cases this)
 
 /-! ## one `handle_git_automation` call -/
@@ -101,22 +110,22 @@ theorem find?_apply_user (t : Tree) (ch : Change) (hc : Confined ch) (p : Path)
     popped again), does not change the work tree at all, keeps the user's staged changes, the
     stash list, the branch (unless `--to-branch`) and all other refs, and a commit it creates
     differs from the previous HEAD only on xvc paths. -/
-theorem C15_user_paths_untouched (cfg : Cfg) (g : G) (msg : String) (tb : Option String) (hookOk : Bool)
+theorem C15_user_paths_untouched (root : Path) (cfg : Cfg) (g : G) (msg : String) (tb : Option String) (hookOk : Bool)
     (hfrag : cfg.useGit = true → cfg.autoCommit = true → NoMixed g) :
-    (handleGitAutomation isXvcPath cfg g msg tb hookOk).status ≠ .outside ∧
-    UserStateKept tb g (handleGitAutomation isXvcPath cfg g msg tb hookOk).g ∧
-    (∀ p, (handleGitAutomation isXvcPath cfg g msg tb hookOk).g.wt.find? p = g.wt.find? p) := by
-  have h := handle_facts isXvcPath cfg g msg tb hookOk hfrag
+    (handleGitAutomation (isXvcPathAt root) cfg g msg tb hookOk).status ≠ .outside ∧
+    UserStateKept root tb g (handleGitAutomation (isXvcPathAt root) cfg g msg tb hookOk).g ∧
+    (∀ p, (handleGitAutomation (isXvcPathAt root) cfg g msg tb hookOk).g.wt.find? p = g.wt.find? p) := by
+  have h := handle_facts (isXvcPathAt root) cfg g msg tb hookOk hfrag
   exact ⟨h.inside, UserStateKept.of_call h, h.wt⟩
 
 /-- a commit xvc creates is a child of the previous HEAD and becomes the new HEAD -/
-theorem C15_new_commit_on_top (cfg : Cfg) (g : G) (msg : String) (tb : Option String) (hookOk : Bool)
+theorem C15_new_commit_on_top (root : Path) (cfg : Cfg) (g : G) (msg : String) (tb : Option String) (hookOk : Bool)
     (hfrag : cfg.useGit = true → cfg.autoCommit = true → NoMixed g) :
-    (handleGitAutomation isXvcPath cfg g msg tb hookOk).g.commits = g.commits ∨
-    ∃ o, (handleGitAutomation isXvcPath cfg g msg tb hookOk).g.commits = g.commits ++ [o] ∧
+    (handleGitAutomation (isXvcPathAt root) cfg g msg tb hookOk).g.commits = g.commits ∨
+    ∃ o, (handleGitAutomation (isXvcPathAt root) cfg g msg tb hookOk).g.commits = g.commits ++ [o] ∧
       o.parent = g.headCommit ∧
-      (handleGitAutomation isXvcPath cfg g msg tb hookOk).g.headCommit = some g.commits.length := by
-  rcases (handle_facts isXvcPath cfg g msg tb hookOk hfrag).commits with h | ⟨o, h1, h2, h3, _⟩
+      (handleGitAutomation (isXvcPathAt root) cfg g msg tb hookOk).g.headCommit = some g.commits.length := by
+  rcases (handle_facts (isXvcPathAt root) cfg g msg tb hookOk hfrag).commits with h | ⟨o, h1, h2, h3, _⟩
   · exact Or.inl h
   · exact Or.inr ⟨o, h1, h2, h3⟩
 
@@ -134,11 +143,11 @@ structure SameState (tb : Option String) (g g' : G) : Prop where
     command leaves behind), `handle_git_automation` creates no commit and the whole state — index,
     work tree, stash, and without `--to-branch` also branch and refs — is what it was.  (On the
     code before C15-F4.patch this fails: `C15_readonly_counterexample_before_fix`.) -/
-theorem C15_readonly_no_commit (cfg : Cfg) (g : G) (msg : String) (tb : Option String) (hookOk : Bool)
+theorem C15_readonly_no_commit (root : Path) (cfg : Cfg) (g : G) (msg : String) (tb : Option String) (hookOk : Bool)
     (hfrag : cfg.useGit = true → cfg.autoCommit = true → NoMixed g)
-    (hnothing : ∀ p, isXvcPath p = true → g.wt.find? p = g.index.find? p) :
-    SameState tb g (handleGitAutomation isXvcPath cfg g msg tb hookOk).g := by
-  have h := handle_facts isXvcPath cfg g msg tb hookOk hfrag
+    (hnothing : ∀ p, isXvcPathAt root p = true → g.wt.find? p = g.index.find? p) :
+    SameState tb g (handleGitAutomation (isXvcPathAt root) cfg g msg tb hookOk).g := by
+  have h := handle_facts (isXvcPathAt root) cfg g msg tb hookOk hfrag
   obtain ⟨h1, h2, h3, h4⟩ := h.nothing hnothing
   exact ⟨h1, h2, h.wt, h.stash, h3, fun ht => (h4 ht).1, fun ht => (h4 ht).2⟩
 
@@ -146,91 +155,111 @@ theorem C15_readonly_no_commit (cfg : Cfg) (g : G) (msg : String) (tb : Option S
 
 /-- the invariant that makes consecutive calls composable: fragment + the user has nothing staged
     on xvc paths (so a later write of xvc to such a path cannot create a mixed path) -/
-def Inv (g : G) : Prop :=
-  NoMixed g ∧ ∀ p, isXvcPath p = true → g.headTree.find? p = g.index.find? p
+def Inv (root : Path) (g : G) : Prop :=
+  NoMixed g ∧ ∀ p, isXvcPathAt root p = true → g.headTree.find? p = g.index.find? p
 
-theorem phase_step (cfg : Cfg) (g : G) (msg : String) (tb : Option String) (ch : Change) (hookOk : Bool)
-    (hinv : cfg.useGit = true → cfg.autoCommit = true → Inv g) (hc : Confined ch) :
-    let o := handleGitAutomation isXvcPath cfg { g with wt := g.wt.apply ch } msg tb hookOk
-    o.status ≠ .outside ∧ UserStateKept tb g o.g ∧
-    (o.status = .ok → cfg.useGit = true → cfg.autoCommit = true → Inv o.g) := by
+theorem phase_step (root : Path) (cfg : Cfg) (g : G) (msg : String) (tb : Option String) (ch : Change) (hookOk : Bool)
+    (hinv : cfg.useGit = true → cfg.autoCommit = true → Inv root g) (hc : Confined root ch) :
+    let o := handleGitAutomation (isXvcPathAt root) cfg { g with wt := g.wt.apply ch } msg tb hookOk
+    o.status ≠ .outside ∧ UserStateKept root tb g o.g ∧
+    (o.status = .ok → cfg.useGit = true → cfg.autoCommit = true → Inv root o.g) := by
   intro o
   let g1 : G := { g with wt := g.wt.apply ch }
   have hH1 : g1.headTree = g.headTree := rfl
-  have hk1 : UserStateKept tb g g1 :=
-    ⟨fun p hp => find?_apply_user g.wt ch hc p hp, fun _ _ => rfl, fun _ _ => rfl, rfl,
+  have hk1 : UserStateKept root tb g g1 :=
+    ⟨fun p hp => find?_apply_user root g.wt ch hc p hp, fun _ _ => rfl, fun _ _ => rfl, rfl,
      Or.inl (Head.same_refl _), fun _ _ _ => rfl, ⟨[], by simp [g1], by simp⟩⟩
   have hm1 : cfg.useGit = true → cfg.autoCommit = true → NoMixed g1 := by
     intro hu ha p hp
     obtain ⟨hm, hx⟩ := hinv hu ha
     have hp' : g.headTree.find? p ≠ g.index.find? p := hp
-    have hux : isXvcPath p = false := by
-      cases h : isXvcPath p
+    have hux : isXvcPathAt root p = false := by
+      cases h : isXvcPathAt root p
       · rfl
       · exact absurd (hx p h) hp'
     show (g.wt.apply ch).find? p = g.index.find? p
-    rw [find?_apply_user g.wt ch hc p hux]
+    rw [find?_apply_user root g.wt ch hc p hux]
     exact hm p hp'
-  have hf := handle_facts isXvcPath cfg g1 msg tb hookOk hm1
+  have hf := handle_facts (isXvcPathAt root) cfg g1 msg tb hookOk hm1
   refine ⟨hf.inside, hk1.trans (UserStateKept.of_call hf), ?_⟩
   intro hok hu ha
-  have hac := autoCommit_facts isXvcPath g1 msg tb hookOk (hm1 hu ha)
-  have ho : o = gitAutoCommit isXvcPath g1 msg tb hookOk := by
-    show handleGitAutomation isXvcPath cfg g1 msg tb hookOk = _
+  have hac := autoCommit_facts (isXvcPathAt root) g1 msg tb hookOk (hm1 hu ha)
+  have ho : o = gitAutoCommit (isXvcPathAt root) g1 msg tb hookOk := by
+    show handleGitAutomation (isXvcPathAt root) cfg g1 msg tb hookOk = _
     simp [handleGitAutomation, hu, ha]
   rw [ho] at hok ⊢
   exact ⟨hac.2.1, fun p hp => hac.2.2 p ((hinv hu ha).2 p hp)⟩
 
-theorem runPhases_kept (cfg : Cfg) (msg : String) (tb : Option String) (g : G)
+theorem runPhases_kept (root : Path) (cfg : Cfg) (msg : String) (tb : Option String) (g : G)
     (phases : List (Change × Bool))
-    (hinv : cfg.useGit = true → cfg.autoCommit = true → Inv g)
-    (hc : ∀ ph ∈ phases, Confined ph.1) :
-    (runPhases isXvcPath cfg msg tb g phases).status ≠ .outside ∧
-    UserStateKept tb g (runPhases isXvcPath cfg msg tb g phases).g := by
+    (hinv : cfg.useGit = true → cfg.autoCommit = true → Inv root g)
+    (hc : ∀ ph ∈ phases, Confined root ph.1) :
+    (runPhases (isXvcPathAt root) cfg msg tb g phases).status ≠ .outside ∧
+    UserStateKept root tb g (runPhases (isXvcPathAt root) cfg msg tb g phases).g := by
   induction phases generalizing g with
-  | nil => exact ⟨by simp [runPhases], UserStateKept.refl' tb g⟩
+  | nil => exact ⟨by simp [runPhases], UserStateKept.refl' root tb g⟩
   | cons ph rest ih =>
     obtain ⟨ch, hookOk⟩ := ph
-    have hstep := phase_step cfg g msg tb ch hookOk hinv (hc (ch, hookOk) (List.mem_cons_self ..))
+    have hstep := phase_step root cfg g msg tb ch hookOk hinv (hc (ch, hookOk) (List.mem_cons_self ..))
     simp only at hstep
     unfold runPhases
     simp only
-    by_cases hok : (handleGitAutomation isXvcPath cfg { g with wt := g.wt.apply ch } msg tb hookOk).status = .ok
+    by_cases hok : (handleGitAutomation (isXvcPathAt root) cfg { g with wt := g.wt.apply ch } msg tb hookOk).status = .ok
     · rw [if_pos hok]
       have := ih _ (hstep.2.2 hok) (fun x hx => hc x (List.mem_cons_of_mem _ hx))
       exact ⟨this.1, hstep.2.1.trans this.2⟩
     · rw [if_neg hok]
       exact ⟨hstep.1, hstep.2.1⟩
 
-theorem foldl_apply_user (phs : List (Change × Bool)) (t : Tree) (hcs : ∀ ph ∈ phs, Confined ph.1)
-    (p : Path) (hp : isXvcPath p = false) :
+theorem foldl_apply_user (root : Path) (phs : List (Change × Bool)) (t : Tree) (hcs : ∀ ph ∈ phs, Confined root ph.1)
+    (p : Path) (hp : isXvcPathAt root p = false) :
     (phs.foldl (fun t ph => t.apply ph.1) t).find? p = t.find? p := by
   induction phs generalizing t with
   | nil => rfl
   | cons ph phs ih =>
     simp only [List.foldl_cons]
     rw [ih _ (fun x hx => hcs x (List.mem_cons_of_mem _ hx))]
-    exact find?_apply_user t ph.1 (hcs ph (List.mem_cons_self ..)) p hp
+    exact find?_apply_user root t ph.1 (hcs ph (List.mem_cons_self ..)) p hp
 
 /-- **C15, whole command.**  For every number of `handle_git_automation` calls (2 for ordinary
     commands, 3 for `xvc init`), every xvc-side change set before each of them that is confined to
     `.xvc/**`, `.gitignore` and `.xvcignore` files, every setting including `--skip-git` and
     `--to-branch`, and every user state in the fragment with nothing staged on xvc paths: the
     command never leaves the fragment and the user's Git state is kept. -/
-theorem C15_command (cfg : Cfg) (skipGit : Bool) (msg : String) (tb : Option String) (g : G)
+theorem C15_command (root : Path) (cfg : Cfg) (skipGit : Bool) (msg : String) (tb : Option String) (g : G)
     (phases : List (Change × Bool))
-    (hinv : skipGit = false → cfg.useGit = true → cfg.autoCommit = true → Inv g)
-    (hc : ∀ ph ∈ phases, Confined ph.1) :
-    (xvcCommand isXvcPath cfg skipGit msg tb g phases).status ≠ .outside ∧
-    UserStateKept tb g (xvcCommand isXvcPath cfg skipGit msg tb g phases).g := by
+    (hinv : skipGit = false → cfg.useGit = true → cfg.autoCommit = true → Inv root g)
+    (hc : ∀ ph ∈ phases, Confined root ph.1) :
+    (xvcCommand (isXvcPathAt root) cfg skipGit msg tb g phases).status ≠ .outside ∧
+    UserStateKept root tb g (xvcCommand (isXvcPathAt root) cfg skipGit msg tb g phases).g := by
   cases skipGit with
   | true =>
     simp only [xvcCommand, if_true]
-    exact ⟨by simp, fun p hp => foldl_apply_user phases g.wt hc p hp, fun _ _ => rfl, fun _ _ => rfl, rfl,
+    exact ⟨by simp, fun p hp => foldl_apply_user root phases g.wt hc p hp, fun _ _ => rfl, fun _ _ => rfl, rfl,
            Or.inl (Head.same_refl _), fun _ _ _ => rfl, ⟨[], by simp, by simp⟩⟩
   | false =>
     simp only [xvcCommand, Bool.false_eq_true, if_false]
-    exact runPhases_kept cfg msg tb g phases (hinv rfl) hc
+    exact runPhases_kept root cfg msg tb g phases (hinv rfl) hc
+
+/-- **C15, Xvc root in a subdirectory.**  Whatever directory `root` of the Git work tree holds the
+    Xvc project, a path OUTSIDE it — whatever its name, `.gitignore` and `.xvc/…` look-alikes
+    included — is left alone by a whole command: same work-tree file, same index entry (a staged
+    change stays staged), same entry in HEAD's tree, and every commit xvc creates has HEAD's old
+    entry for it (the user's staged or unstaged version is in none of xvc's commits). -/
+theorem C15_outside_root (root : Path) (cfg : Cfg) (skipGit : Bool) (msg : String) (tb : Option String)
+    (g : G) (phases : List (Change × Bool))
+    (hinv : skipGit = false → cfg.useGit = true → cfg.autoCommit = true → Inv root g)
+    (hc : ∀ ph ∈ phases, Confined root ph.1)
+    (p : Path) (hp : root.isPrefixOf p = false) :
+    (xvcCommand (isXvcPathAt root) cfg skipGit msg tb g phases).g.wt.find? p = g.wt.find? p ∧
+    (xvcCommand (isXvcPathAt root) cfg skipGit msg tb g phases).g.index.find? p = g.index.find? p ∧
+    (xvcCommand (isXvcPathAt root) cfg skipGit msg tb g phases).g.headTree.find? p = g.headTree.find? p ∧
+    ∃ new, (xvcCommand (isXvcPathAt root) cfg skipGit msg tb g phases).g.commits = g.commits ++ new ∧
+      ∀ o ∈ new, o.tree.find? p = g.headTree.find? p := by
+  have hu := isXvcPathAt_outside root p hp
+  have h := (C15_command root cfg skipGit msg tb g phases hinv hc).2
+  obtain ⟨new, e, hn⟩ := h.commits
+  exact ⟨h.wt p hu, h.index p hu, h.headTree p hu, new, e, fun o ho => hn o ho p hu⟩
 
 theorem foldl_apply_nil (phs : List (Change × Bool)) (t : Tree) (h : ∀ ph ∈ phs, ph.1 = []) :
     phs.foldl (fun t ph => t.apply ph.1) t = t := by
@@ -244,11 +273,11 @@ theorem foldl_apply_nil (phs : List (Change × Bool)) (t : Tree) (h : ∀ ph ∈
 theorem SameState.refl' (tb : Option String) (g : G) : SameState tb g g :=
   ⟨rfl, fun _ => rfl, fun _ => rfl, rfl, rfl, fun _ => rfl, fun _ _ => rfl⟩
 
-theorem runPhases_readonly (cfg : Cfg) (msg : String) (g : G) (phases : List (Change × Bool))
+theorem runPhases_readonly (root : Path) (cfg : Cfg) (msg : String) (g : G) (phases : List (Change × Bool))
     (hfrag : cfg.useGit = true → cfg.autoCommit = true → NoMixed g)
-    (hnothing : ∀ p, isXvcPath p = true → g.wt.find? p = g.index.find? p)
+    (hnothing : ∀ p, isXvcPathAt root p = true → g.wt.find? p = g.index.find? p)
     (hro : ∀ ph ∈ phases, ph.1 = []) :
-    SameState none g (runPhases isXvcPath cfg msg none g phases).g := by
+    SameState none g (runPhases (isXvcPathAt root) cfg msg none g phases).g := by
   induction phases generalizing g with
   | nil => exact SameState.refl' none g
   | cons ph rest ih =>
@@ -259,18 +288,18 @@ theorem runPhases_readonly (cfg : Cfg) (msg : String) (g : G) (phases : List (Ch
     simp only
     have hg : ({ g with wt := g.wt.apply [] } : G) = g := rfl
     rw [hg]
-    have h1 := C15_readonly_no_commit cfg g msg none hookOk hfrag hnothing
-    by_cases hok : (handleGitAutomation isXvcPath cfg g msg none hookOk).status = .ok
+    have h1 := C15_readonly_no_commit root cfg g msg none hookOk hfrag hnothing
+    by_cases hok : (handleGitAutomation (isXvcPathAt root) cfg g msg none hookOk).status = .ok
     · rw [if_pos hok]
       have hfrag' : cfg.useGit = true → cfg.autoCommit = true →
-          NoMixed (handleGitAutomation isXvcPath cfg g msg none hookOk).g := by
+          NoMixed (handleGitAutomation (isXvcPathAt root) cfg g msg none hookOk).g := by
         intro hu ha p hp
         rw [h1.headTree, h1.index] at hp
         rw [h1.wt, h1.index]
         exact hfrag hu ha p hp
-      have hnothing' : ∀ p, isXvcPath p = true →
-          (handleGitAutomation isXvcPath cfg g msg none hookOk).g.wt.find? p =
-          (handleGitAutomation isXvcPath cfg g msg none hookOk).g.index.find? p := by
+      have hnothing' : ∀ p, isXvcPathAt root p = true →
+          (handleGitAutomation (isXvcPathAt root) cfg g msg none hookOk).g.wt.find? p =
+          (handleGitAutomation (isXvcPathAt root) cfg g msg none hookOk).g.index.find? p := by
         intro p hp; rw [h1.wt, h1.index]; exact hnothing p hp
       have h2 := ih _ hfrag' hnothing' (fun x hx => hro x (List.mem_cons_of_mem _ hx))
       exact ⟨by rw [h2.commits, h1.commits], fun p => by rw [h2.index, h1.index],
@@ -284,12 +313,12 @@ theorem runPhases_readonly (cfg : Cfg) (msg : String) (g : G) (phases : List (Ch
     set), run in a repository without pending changes on xvc paths, creates no commit however many
     times `handle_git_automation` is called, and leaves index, work tree, stash, branch and refs
     as they were. -/
-theorem C15_command_readonly (cfg : Cfg) (skipGit : Bool) (msg : String) (g : G)
+theorem C15_command_readonly (root : Path) (cfg : Cfg) (skipGit : Bool) (msg : String) (g : G)
     (phases : List (Change × Bool))
     (hfrag : cfg.useGit = true → cfg.autoCommit = true → NoMixed g)
-    (hnothing : ∀ p, isXvcPath p = true → g.wt.find? p = g.index.find? p)
+    (hnothing : ∀ p, isXvcPathAt root p = true → g.wt.find? p = g.index.find? p)
     (hro : ∀ ph ∈ phases, ph.1 = []) :
-    SameState none g (xvcCommand isXvcPath cfg skipGit msg none g phases).g := by
+    SameState none g (xvcCommand (isXvcPathAt root) cfg skipGit msg none g phases).g := by
   cases skipGit with
   | true =>
     simp only [xvcCommand, if_true]
@@ -297,18 +326,18 @@ theorem C15_command_readonly (cfg : Cfg) (skipGit : Bool) (msg : String) (g : G)
     exact SameState.refl' none g
   | false =>
     simp only [xvcCommand, Bool.false_eq_true, if_false]
-    exact runPhases_readonly cfg msg g phases hfrag hnothing hro
+    exact runPhases_readonly root cfg msg g phases hfrag hnothing hro
 
-theorem runPhases_off (cfg : Cfg) (msg : String) (tb : Option String) (g : G)
+theorem runPhases_off (root : Path) (cfg : Cfg) (msg : String) (tb : Option String) (g : G)
     (phases : List (Change × Bool))
     (hoff : cfg.useGit = false ∨ (cfg.autoCommit = false ∧ cfg.autoStage = false)) :
-    (runPhases isXvcPath cfg msg tb g phases).status = .ok ∧
-    (runPhases isXvcPath cfg msg tb g phases).g.index = g.index ∧
-    (runPhases isXvcPath cfg msg tb g phases).g.commits = g.commits ∧
-    (runPhases isXvcPath cfg msg tb g phases).g.refs = g.refs ∧
-    (runPhases isXvcPath cfg msg tb g phases).g.head = g.head ∧
-    (runPhases isXvcPath cfg msg tb g phases).g.stash = g.stash := by
-  have hcall : ∀ g1 hk, handleGitAutomation isXvcPath cfg g1 msg tb hk = ⟨g1, .ok⟩ := by
+    (runPhases (isXvcPathAt root) cfg msg tb g phases).status = .ok ∧
+    (runPhases (isXvcPathAt root) cfg msg tb g phases).g.index = g.index ∧
+    (runPhases (isXvcPathAt root) cfg msg tb g phases).g.commits = g.commits ∧
+    (runPhases (isXvcPathAt root) cfg msg tb g phases).g.refs = g.refs ∧
+    (runPhases (isXvcPathAt root) cfg msg tb g phases).g.head = g.head ∧
+    (runPhases (isXvcPathAt root) cfg msg tb g phases).g.stash = g.stash := by
+  have hcall : ∀ g1 hk, handleGitAutomation (isXvcPathAt root) cfg g1 msg tb hk = ⟨g1, .ok⟩ := by
     intro g1 hk
     unfold handleGitAutomation
     rcases hoff with h | ⟨h1, h2⟩
@@ -324,35 +353,35 @@ theorem runPhases_off (cfg : Cfg) (msg : String) (tb : Option String) (g : G)
 /-- **C15, git switched off.**  With `--skip-git`, `git.use_git = false`, or both automations off,
     nothing but the command's own writes happens: index, commits, refs, branch and stash are
     literally unchanged, for EVERY state (also outside the fragment). -/
-theorem C15_no_git (cfg : Cfg) (skipGit : Bool) (msg : String) (tb : Option String) (g : G)
+theorem C15_no_git (root : Path) (cfg : Cfg) (skipGit : Bool) (msg : String) (tb : Option String) (g : G)
     (phases : List (Change × Bool))
     (hoff : skipGit = true ∨ cfg.useGit = false ∨ (cfg.autoCommit = false ∧ cfg.autoStage = false)) :
-    (xvcCommand isXvcPath cfg skipGit msg tb g phases).status = .ok ∧
-    (xvcCommand isXvcPath cfg skipGit msg tb g phases).g.index = g.index ∧
-    (xvcCommand isXvcPath cfg skipGit msg tb g phases).g.commits = g.commits ∧
-    (xvcCommand isXvcPath cfg skipGit msg tb g phases).g.refs = g.refs ∧
-    (xvcCommand isXvcPath cfg skipGit msg tb g phases).g.head = g.head ∧
-    (xvcCommand isXvcPath cfg skipGit msg tb g phases).g.stash = g.stash := by
+    (xvcCommand (isXvcPathAt root) cfg skipGit msg tb g phases).status = .ok ∧
+    (xvcCommand (isXvcPathAt root) cfg skipGit msg tb g phases).g.index = g.index ∧
+    (xvcCommand (isXvcPathAt root) cfg skipGit msg tb g phases).g.commits = g.commits ∧
+    (xvcCommand (isXvcPathAt root) cfg skipGit msg tb g phases).g.refs = g.refs ∧
+    (xvcCommand (isXvcPathAt root) cfg skipGit msg tb g phases).g.head = g.head ∧
+    (xvcCommand (isXvcPathAt root) cfg skipGit msg tb g phases).g.stash = g.stash := by
   cases skipGit with
   | true => simp [xvcCommand]
   | false =>
     simp only [xvcCommand, Bool.false_eq_true, if_false]
     rcases hoff with h | h
     · cases h
-    · exact runPhases_off cfg msg tb g phases h
+    · exact runPhases_off root cfg msg tb g phases h
 
 /-- **C15, `auto_stage`.**  With `git.auto_commit = false`, `git.auto_stage = true` one call only
     runs `git add` on xvc paths: no commit, no stash, no branch or ref change, user index entries
     kept — for EVERY state (no fragment condition: no stash is involved). -/
-theorem C15_auto_stage (g : G) (msg : String) (tb : Option String) (hookOk : Bool) :
-    let o := handleGitAutomation isXvcPath ⟨true, false, true⟩ g msg tb hookOk
+theorem C15_auto_stage (root : Path) (g : G) (msg : String) (tb : Option String) (hookOk : Bool) :
+    let o := handleGitAutomation (isXvcPathAt root) ⟨true, false, true⟩ g msg tb hookOk
     o.status = .ok ∧ o.g.commits = g.commits ∧ o.g.refs = g.refs ∧ o.g.head = g.head ∧
     o.g.stash = g.stash ∧ o.g.wt = g.wt ∧
-    (∀ p, isXvcPath p = false → o.g.index.find? p = g.index.find? p) ∧
-    (∀ p, isXvcPath p = true → o.g.index.find? p = g.wt.find? p) := by
+    (∀ p, isXvcPathAt root p = false → o.g.index.find? p = g.index.find? p) ∧
+    (∀ p, isXvcPathAt root p = true → o.g.index.find? p = g.wt.find? p) := by
   intro o
-  have ho : o = ⟨addState isXvcPath g, .ok⟩ := by
-    show handleGitAutomation isXvcPath ⟨true, false, true⟩ g msg tb hookOk = _
+  have ho : o = ⟨addState (isXvcPathAt root) g, .ok⟩ := by
+    show handleGitAutomation (isXvcPathAt root) ⟨true, false, true⟩ g msg tb hookOk = _
     simp [handleGitAutomation, gitAutoStage, gitAdd_fst]
   rw [ho]
   refine ⟨rfl, rfl, rfl, rfl, rfl, rfl, ?_, ?_⟩
@@ -437,9 +466,9 @@ example :
     o.status = .gitError ∧ o.g.commits.length = 1 ∧ o.g.stash = exState.stash ∧
     o.g.index.find? ["new.txt"] = some "n1" ∧ o.g.wt.find? ["new.txt"] = some "n1" := by decide
 /-- `Inv` (hypothesis of `C15_command`) is satisfiable by the same state -/
-example : Inv exState :=
+example : Inv [] exState :=
   ⟨(noMixedB_iff _).mp (by decide), fun p hp => by
-    have : ∀ q ∈ exState.headTree.keys ++ exState.index.keys, isXvcPath q = true →
+    have : ∀ q ∈ exState.headTree.keys ++ exState.index.keys, isXvcPathAt [] q = true →
         exState.headTree.find? q = exState.index.find? q := by decide
     by_cases h1 : p ∈ exState.headTree.keys ++ exState.index.keys
     · exact this p h1 hp
@@ -447,7 +476,7 @@ example : Inv exState :=
       rw [Tree.find?_none_of_not_mem_keys _ p (fun h => h2 (Or.inl h)),
           Tree.find?_none_of_not_mem_keys _ p (fun h => h2 (Or.inr h))]⟩
 /-- a whole two-call command on it: confined change set, one commit, user state kept -/
-example : Confined [([".xvc", "ec", "1"], some "e"), (["data", ".gitignore"], some "g")] := by
+example : Confined [] [([".xvc", "ec", "1"], some "e"), (["data", ".gitignore"], some "g")] := by
   unfold Confined; decide
 /-- a whole ordinary command (two calls) on the busy state: xvc writes two files, then nothing; one
     commit, the second call finds nothing to do, the user's six pending changes are where they were -/
@@ -492,6 +521,112 @@ example :
     let o := gitCheckoutRef exTwoRefs "nosuchref"
     o.status = .gitError ∧ o.g.head = .branch "main" ∧ o.g.index.find? ["new.txt"] = some "n1" ∧
     o.g.wt.find? ["new.txt"] = some "n1" ∧ o.g.stash = exTwoRefs.stash := by decide
+
+/-! ## Xvc root in a subdirectory of the Git work tree (`repo/proj/.xvc`) -/
+
+/-- which paths the pathspecs match when git runs in `proj/`: the user's own ignore files and
+    `.xvc` look-alikes next to `proj/` are NOT matched, xvc's files below `proj/` are -/
+example :
+    isXvcPathAt ["proj"] [".gitignore"] = false ∧ isXvcPathAt ["proj"] ["dir", ".gitignore"] = false ∧
+    isXvcPathAt ["proj"] [".xvc", "x"] = false ∧ isXvcPathAt ["proj"] ["proj2", ".xvcignore"] = false ∧
+    isXvcPathAt ["proj"] ["proj"] = false ∧ isXvcPathAt ["proj"] ["proj", "in.txt"] = false ∧
+    isXvcPathAt ["proj"] ["proj", ".xvc", "ec", "1"] = true ∧ isXvcPathAt ["proj"] ["proj", ".gitignore"] = true ∧
+    isXvcPathAt ["proj"] ["proj", "data", ".gitignore"] = true ∧ isXvcPathAt ["proj"] ["proj", ".xvcignore"] = true ∧
+    isXvcPathAt ["a", "b"] ["a", "b", ".xvc", "c"] = true ∧ isXvcPathAt ["a", "b"] ["a", ".xvc", "c"] = false := by
+  decide
+
+def nestedHead : Tree :=
+  [(["README.md"], "r1"), (["obsolete.txt"], "o1"), ([".gitignore"], "top0"), (["dir", ".gitignore"], "dg0"),
+   (["proj", "in.txt"], "i1"), (["proj", ".gitignore"], "gi0"), (["proj", ".xvcignore"], "xi0"),
+   (["proj", ".xvc", "config.toml"], "c0")]
+
+/-- The Xvc project lives in `proj/`.  ALL of the user's staged changes are outside it: a staged
+    modification (`README.md`), a staged new file (`notes.txt`), a staged deletion (`obsolete.txt`).
+    Further user state: an unstaged edit of the user's top-level `.gitignore` (a user file here),
+    an unstaged edit inside `proj/`, untracked files outside and inside, a stash entry.  xvc has
+    just written `proj/.xvc/store/a.json` and `proj/data/.gitignore`. -/
+def exNested : G :=
+  { commits := [⟨nestedHead, none, "root"⟩]
+    refs := [("main", 0), ("other", 0)]
+    head := .branch "main"
+    index := [(["README.md"], "r2"), (["notes.txt"], "n1"), ([".gitignore"], "top0"), (["dir", ".gitignore"], "dg0"),
+              (["proj", "in.txt"], "i1"), (["proj", ".gitignore"], "gi0"), (["proj", ".xvcignore"], "xi0"),
+              (["proj", ".xvc", "config.toml"], "c0")]
+    wt := [(["README.md"], "r2"), (["notes.txt"], "n1"), ([".gitignore"], "top1-edited"), (["dir", ".gitignore"], "dg0"),
+           (["scratch.txt"], "s1"), (["proj", "in.txt"], "i1-edited"), (["proj", "untracked.txt"], "u1"),
+           (["proj", ".gitignore"], "gi0"), (["proj", ".xvcignore"], "xi0"), (["proj", ".xvc", "config.toml"], "c0"),
+           (["proj", ".xvc", "store", "a.json"], "a1"), (["proj", "data", ".gitignore"], "dgi1")]
+    stash := [⟨"user", [], [(["old.txt"], "o")]⟩] }
+
+example : NoMixed exNested := (noMixedB_iff _).mp (by decide)
+/-- everything the user staged is outside the Xvc root; `--relative` would list nothing -/
+example : diffCached exNested ≠ [] ∧ (diffCached exNested).all (fun p => !(["proj"].isPrefixOf p)) = true ∧
+    diffCachedRelative ["proj"] exNested = [] := by decide
+/-- `Inv ["proj"]` (hypothesis of `C15_command`, `C15_outside_root`) holds for it -/
+example : Inv ["proj"] exNested :=
+  ⟨(noMixedB_iff _).mp (by decide), fun p hp => by
+    have : ∀ q ∈ exNested.headTree.keys ++ exNested.index.keys, isXvcPathAt ["proj"] q = true →
+        exNested.headTree.find? q = exNested.index.find? q := by decide
+    by_cases h1 : p ∈ exNested.headTree.keys ++ exNested.index.keys
+    · exact this p h1 hp
+    · have h2 : ¬ (p ∈ exNested.headTree.keys ∨ p ∈ exNested.index.keys) := fun h => h1 (List.mem_append.mpr h)
+      rw [Tree.find?_none_of_not_mem_keys _ p (fun h => h2 (Or.inl h)),
+          Tree.find?_none_of_not_mem_keys _ p (fun h => h2 (Or.inr h))]⟩
+example : Confined ["proj"] [(["proj", ".xvc", "store", "a.json"], some "a1"), (["proj", "data", ".gitignore"], some "dgi1")] := by
+  unfold Confined; decide
+
+/-- **Nested layout, the transcription of the code**: one call on `exNested` commits exactly xvc's
+    two files; the three staged changes outside `proj/` are in no commit and are staged as before,
+    the user's edited top-level `.gitignore` is not committed, stash and branches are kept. -/
+theorem C15_nested_staged_outside_witness :
+    let o := handleGitAutomation (isXvcPathAt ["proj"]) ⟨true, true, false⟩ exNested "m" none true
+    o.status = .ok ∧ o.g.commits.length = 2 ∧ lookupRef o.g.refs "main" = some 1 ∧
+    o.g.headTree.find? ["proj", ".xvc", "store", "a.json"] = some "a1" ∧
+    o.g.headTree.find? ["proj", "data", ".gitignore"] = some "dgi1" ∧
+    o.g.headTree.find? ["README.md"] = some "r1" ∧ o.g.headTree.find? ["notes.txt"] = none ∧
+    o.g.headTree.find? ["obsolete.txt"] = some "o1" ∧ o.g.headTree.find? [".gitignore"] = some "top0" ∧
+    o.g.index.find? ["README.md"] = some "r2" ∧ o.g.index.find? ["notes.txt"] = some "n1" ∧
+    o.g.index.find? ["obsolete.txt"] = none ∧ o.g.wt.find? ["notes.txt"] = some "n1" ∧
+    o.g.wt.find? [".gitignore"] = some "top1-edited" ∧ o.g.index.find? [".gitignore"] = some "top0" ∧
+    o.g.stash = exNested.stash ∧ lookupRef o.g.refs "other" = some 0 := by decide
+
+/-- **Nested layout, `--relative` variant (not the code)**: had `stash_user_staged_files` asked
+    `git diff --name-only --relative --cached`, nothing would be stashed on `exNested` and xvc's
+    commit would contain the user's three staged changes, leaving nothing staged. -/
+theorem C15_nested_relative_counterexample :
+    let o := gitAutoCommitRelative ["proj"] (isXvcPathAt ["proj"]) exNested "m" none true
+    o.status = .ok ∧ o.g.commits.length = 2 ∧
+    o.g.headTree.find? ["notes.txt"] = some "n1" ∧ o.g.headTree.find? ["README.md"] = some "r2" ∧
+    o.g.headTree.find? ["obsolete.txt"] = none ∧ diffCached o.g = [] ∧
+    isXvcPathAt ["proj"] ["notes.txt"] = false := by decide
+
+/-- with at least one staged path below `proj/` the variant behaves like the code (why the defect
+    needs ALL staged changes outside the Xvc root) -/
+example :
+    let g : G := { exNested with index := (["proj", "new.txt"], "p1") :: exNested.index,
+                                 wt := (["proj", "new.txt"], "p1") :: exNested.wt }
+    (gitAutoCommitRelative ["proj"] (isXvcPathAt ["proj"]) g "m" none true).g.headTree =
+      (gitAutoCommit (isXvcPathAt ["proj"]) g "m" none true).g.headTree ∧
+    (gitAutoCommit (isXvcPathAt ["proj"]) g "m" none true).g.headTree.find? ["notes.txt"] = none ∧
+    (gitAutoCommit (isXvcPathAt ["proj"]) g "m" none true).g.index.find? ["proj", "new.txt"] = some "p1" := by decide
+
+/-- a whole ordinary command (two calls) in the nested layout, also detached and with a rejected commit -/
+example :
+    let o := xvcCommand (isXvcPathAt ["proj"]) ⟨true, true, false⟩ false "m" none
+      { exNested with wt := exNested.wt.filter (fun e => e.1 != ["proj", ".xvc", "store", "a.json"] && e.1 != ["proj", "data", ".gitignore"]) }
+      [([(["proj", ".xvc", "store", "a.json"], some "a1"), (["proj", "data", ".gitignore"], some "dgi1")], true), ([], true)]
+    o.status = .ok ∧ o.g.commits.length = 2 ∧ o.g.stash = exNested.stash ∧ o.g.head = exNested.head ∧
+    o.g.headTree.find? ["notes.txt"] = none ∧ o.g.index.find? ["notes.txt"] = some "n1" ∧
+    o.g.index.find? ["obsolete.txt"] = none ∧ o.g.wt.find? ["scratch.txt"] = some "s1" ∧
+    o.g.wt.find? ["proj", "in.txt"] = some "i1-edited" := by decide
+example :
+    let o := handleGitAutomation (isXvcPathAt ["proj"]) ⟨true, true, false⟩ { exNested with head := .detached 0 } "m" none true
+    o.status = .ok ∧ o.g.head = .detached 1 ∧ o.g.index.find? ["notes.txt"] = some "n1" ∧
+    o.g.headTree.find? ["notes.txt"] = none := by decide
+example :
+    let o := handleGitAutomation (isXvcPathAt ["proj"]) ⟨true, true, false⟩ exNested "m" none false
+    o.status = .gitError ∧ o.g.commits.length = 1 ∧ o.g.stash = exNested.stash ∧
+    o.g.index.find? ["notes.txt"] = some "n1" ∧ o.g.index.find? ["proj", ".xvc", "store", "a.json"] = none := by decide
 
 /-! ## the code before the patches: concrete counterexamples (replayed on the real binary by
     `lib/c15.py`, corpus cases 0–4 and 6–8) -/
@@ -552,6 +687,8 @@ open Git in
 open Git in
 #print axioms C15_command
 open Git in
+#print axioms C15_outside_root
+open Git in
 #print axioms C15_command_readonly
 open Git in
 #print axioms C15_from_ref
@@ -559,6 +696,10 @@ open Git in
 #print axioms C15_no_git
 open Git in
 #print axioms C15_auto_stage
+open Git in
+#print axioms C15_nested_staged_outside_witness
+open Git in
+#print axioms C15_nested_relative_counterexample
 open Git in
 #print axioms C15_readonly_counterexample_before_fix
 open Git in
